@@ -31,6 +31,15 @@ Python construct                                              ->  model term
                                                               ->  `C03.gpObjective sbs false/true T val m 0/i A n`
 Anything else: `c.broken.append(("translator: <method>", reason))`, no extra obligations (the usual
 failing-input search of the check runs on).
+
+Third tie (`gen_objective_func`, table and translators in harness/c03_closures.py): the `_objective_func` closures of
+`_gp_goal_constraints` (target / minimisation / `hasattr` override branch, their `n_active`, the epsilon symbol, the
+default-argument binding of the loop variables versus late-bound free variables), the closure the linearising mixin
+stores on the goal, and the tuple position through which `GoalProgrammingMixin.optimize` /
+`SinglePassGoalProgrammingMixin` fill the objective list and the path objective list.  Output:
+`lean/RtcVerif/Gen/GpObjectiveFunc.lean` (imports `Gen/GpObjective.lean`); its `..._chain` theorems compose the
+translated closures, the translated callers and the translated `_gp_objective` / `_gp_path_objective` /
+`_gp_n_objectives` into the model's `gpObjective` / `nObjectives`.
 """
 import ast
 import os
@@ -337,3 +346,12 @@ def gen_gp_objective(c):
             f.write(text)
         os.replace(tmp, path)
     return [("RtcVerif.Gen.GpObjective", "RtcVerif.Gen", THEOREMS)]
+
+
+def gen_objective_func(c):
+    """(re)generate lean/RtcVerif/Gen/GpObjectiveFunc.lean (the `_objective_func` closures of
+    `_gp_goal_constraints`, see harness/c03_closures.py); returns the extra obligation spec for c.prove.
+    Must come AFTER gen_gp_objective(c) in the `extra` list (the module imports Gen/GpObjective.lean)."""
+    from . import c03_closures
+
+    return c03_closures.generate(c)
